@@ -470,12 +470,27 @@ func (w *World) afterEndBlock() {
 			p.Done = true
 			continue
 		}
+		if os.Getenv("VERIF_DEBUG_GOV") != "" && p.Op.Rule == 9 && prop.Status != govv1.StatusVotingPeriod {
+			fmt.Println("GOV9-RESULT:", p.Op.Kind, prop.Status)
+			if msgs, err := prop.GetMsgs(); err == nil && len(msgs) > 0 {
+				cctx, _ := ctx.CacheContext()
+				if h := w.C.App.MsgServiceRouter().Handler(msgs[0]); h != nil {
+					_, err := h(cctx, msgs[0])
+					fmt.Printf("GOV9-EXEC: %T err=%v\n", msgs[0], err)
+				}
+			}
+		}
 		switch prop.Status {
 		case govv1.StatusPassed:
 			p.Done, p.Passed = true, true
 			w.Class("gov.passed." + p.Op.Kind)
 			if p.Op.Kind == EntRaise {
 				w.adoptRaisedByGovernance()
+			}
+			if (p.Op.Kind == EntWL || p.Op.Kind == EntDecide) && p.Op.Rule == 9 && !w.Ent.IsSigner(w.addrName("gov").Key()) {
+				// the proposal's message executed although the account it names as signer - the governance account - is not
+				// in the signer list in force (a message that fails makes its proposal fail)
+				w.Fail("C13", "a proposal carrying %s with the governance account named as signer passed and executed, but the governance account is not an authorised enterprise signer", p.Op.Kind)
 			}
 		case govv1.StatusFailed, govv1.StatusRejected:
 			p.Done = true
